@@ -151,9 +151,9 @@ properties/C16.vos properties/C16.vok properties/C16.required_vos: properties/C1
 proofs/PutQueryProofs.vo proofs/PutQueryProofs.glob proofs/PutQueryProofs.v.beautified proofs/PutQueryProofs.required_vo: proofs/PutQueryProofs.v model/Bytes.vo model/PutQuery.vo model/Check08.vo
 proofs/PutQueryProofs.vio: proofs/PutQueryProofs.v model/Bytes.vio model/PutQuery.vio model/Check08.vio
 proofs/PutQueryProofs.vos proofs/PutQueryProofs.vok proofs/PutQueryProofs.required_vos: proofs/PutQueryProofs.v model/Bytes.vos model/PutQuery.vos model/Check08.vos
-properties/C08.vo properties/C08.glob properties/C08.v.beautified properties/C08.required_vo: properties/C08.v model/Bytes.vo model/PutQuery.vo model/Check08.vo proofs/PutQueryProofs.vo
-properties/C08.vio: properties/C08.v model/Bytes.vio model/PutQuery.vio model/Check08.vio proofs/PutQueryProofs.vio
-properties/C08.vos properties/C08.vok properties/C08.required_vos: properties/C08.v model/Bytes.vos model/PutQuery.vos model/Check08.vos proofs/PutQueryProofs.vos
+properties/C08.vo properties/C08.glob properties/C08.v.beautified properties/C08.required_vo: properties/C08.v model/Bytes.vo model/PutQuery.vo model/Check08.vo proofs/PutQueryProofs.vo model/Calls.vo proofs/CallsProofs.vo
+properties/C08.vio: properties/C08.v model/Bytes.vio model/PutQuery.vio model/Check08.vio proofs/PutQueryProofs.vio model/Calls.vio proofs/CallsProofs.vio
+properties/C08.vos properties/C08.vok properties/C08.required_vos: properties/C08.v model/Bytes.vos model/PutQuery.vos model/Check08.vos proofs/PutQueryProofs.vos model/Calls.vos proofs/CallsProofs.vos
 properties/C17.vo properties/C17.glob properties/C17.v.beautified properties/C17.required_vo: properties/C17.v model/Bytes.vo model/PutQuery.vo model/Check08.vo proofs/PutQueryProofs.vo
 properties/C17.vio: properties/C17.v model/Bytes.vio model/PutQuery.vio model/Check08.vio proofs/PutQueryProofs.vio
 properties/C17.vos properties/C17.vok properties/C17.required_vos: properties/C17.v model/Bytes.vos model/PutQuery.vos model/Check08.vos proofs/PutQueryProofs.vos
